@@ -241,6 +241,18 @@ def make_matrix(rng, rows):
     V, _ = np.linalg.qr(rng.normal(size=(r, r)))
     s = np.geomspace(1, 1 / cond, r) if r > 1 else np.ones(1)
     A = (U * s) @ V.T * 10.0 ** rng.uniform(-3, 3)
+    if rng.random() < 0.15:
+        # entries of equal magnitude: random signs / small integers (ties in
+        # the pivot search and exact +-1 multipliers in the LU start)
+        for _ in range(20):
+            A = rng.choice([-1., 1.], size=(n, r)) if rng.random() < 0.5 else \
+                rng.integers(-2, 3, size=(n, r)).astype(float)
+            sv = np.linalg.svd(A, compute_uv=False)
+            if sv[-1] > 1e-8 * sv[0]:
+                cond = float(sv[0] / sv[-1])
+                break
+        else:
+            A = (U * s) @ V.T
     extra = []
     if rows in ('dup', 'dupzero'):
         for _ in range(int(rng.integers(1, 4))):
